@@ -5,7 +5,6 @@ use crate::judge::*;
 use crate::machine::*;
 use crate::reader;
 use coset::cbor::value::Value;
-use coset::CborSerializable;
 use serde_json::{json, Value as J};
 use std::collections::hash_map::DefaultHasher;
 use std::collections::HashSet;
@@ -293,7 +292,15 @@ pub fn run_decode(ctx: &mut Ctx, v: &J) {
             };
             // bind the specification's Parse/Enc to ciborium: the wire must parse to the item
             if !v["item"].is_null() && api == "slice" {
-                match Value::from_slice(&bytes) {
+                // ciborium directly (NOT through the crate under test): one item, nothing after it
+                let parsed: Result<Value, ()> = {
+                    let mut sl: &[u8] = &bytes;
+                    match coset::cbor::de::from_reader::<Value, _>(&mut sl) {
+                        Ok(v) if sl.is_empty() => Ok(v),
+                        _ => Err(()),
+                    }
+                };
+                match parsed {
                     Ok(pv) => {
                         if !same(&jvalue(&pv), &v["item"]) {
                             ctx.model_dev += 1;
